@@ -172,8 +172,8 @@ static long shape_failures;
 /* lean mode (huge exhaustive sweeps): no trace, only the outcome shape, the follow-up operations and the
  * environment (sanitizers, watchdog, exact-size block) */
 static void lean_load(const unsigned char* in, size_t len) {
-  unsigned char* blk = malloc(len ? len : 1);
-  unsigned char* src = len ? blk : blk + 1;
+  unsigned char* blk;
+  unsigned char* src = vh_exact_rot(len, &blk);
   memcpy(src, in, len);
   struct cbor_load_result res;
   memset(&res, 0xAB, sizeof res);
@@ -221,8 +221,8 @@ static void one_load_core(const unsigned char* in, size_t len) {
   size_t trlen = 0, pjlen = 0;
   tr = open_memstream(&trbuf, &trlen);
   pj = opt_dedup ? open_memstream(&pjbuf, &pjlen) : NULL;
-  unsigned char* blk = malloc(len ? len : 1);
-  unsigned char* src = len ? blk : blk + 1;
+  unsigned char* blk;
+  unsigned char* src = vh_exact_rot(len, &blk);
   memcpy(src, in, len);
   struct cbor_load_result res;
   memset(&res, 0xAB, sizeof res);
@@ -239,7 +239,7 @@ static void one_load_core(const unsigned char* in, size_t len) {
   last_load_requests = va.requests - req0;
   va_fault_mode = VA_NONE; /* a scheduled refusal applies to the load only */
   /* the input may be overwritten and released at once: nothing in the tree may refer to it */
-  memset(blk, 0xEE, len ? len : 1);
+  if (len) memset(src, 0xEE, len);
   free(blk);
   long live1 = va.live - live0;
   struct cbor_load_result sent;
@@ -499,8 +499,8 @@ static void nest_family(int Lim, unsigned mask) {
 /* ------------------------------------------------------------------ C14: suffix independence and sequences */
 static void quiet_load_json(FILE* out, const unsigned char* in, size_t len) {
   /* exact-size copy, hook off; prints {"ok":..,"read":[8],"code":"..","tree":...} */
-  unsigned char* blk = malloc(len ? len : 1);
-  unsigned char* src = len ? blk : blk + 1;
+  unsigned char* blk;
+  unsigned char* src = vh_exact_rot(len, &blk);
   memcpy(src, in, len);
   struct cbor_load_result r;
   memset(&r, 0xAB, sizeof r);
